@@ -7,7 +7,7 @@ between components), followed by an implicit Close().
 
 
 def _trailer(sid, count, ctl):
-    return [sid, [str(count)], [ctl if ctl is not None else 'None']]
+    return [sid, [str(count)], [ctl if ctl is not None else '']]      # a header without control number: the trailer has none either (never the text 'None')
 
 
 def expected(events, sub_term, rep):
